@@ -89,6 +89,10 @@ static const char* check_alloc_specific(int a, const block_t* b, size_t size) {
 enum { C_FREE, C_REALLOC_GROW, C_REALLOC_SHRINK, C_REALLOCARRAY, C_USABLE_THEN_FREE, C_CFREE, C_COUNT };
 static const char* c_name[C_COUNT] = { "free", "realloc(grow)", "realloc(shrink)", "reallocarray", "malloc_usable_size", "cfree" };
 
+/* never hand a pointer that is not mimalloc's to mimalloc (or the reverse): it would crash the oracle */
+static long long usable_or_minus1(void* r) { return (r != NULL && P_in_heap(r)) ? (long long)P_usable(r) : -1; }
+static void release(void* r) { if (r != NULL && P_in_heap(r)) free(r); }
+
 static char* text_copy = NULL;    /* copy of a text block taken before it is resized */
 
 static const char* check_resized(const block_t* b, void* q, size_t newsize) {
@@ -107,15 +111,15 @@ static const char* do_consume(int c, block_t* b) {
     case C_FREE: free(b->p); return "ok";
     case C_REALLOC_GROW: {
       size_t ns = 2 * b->req + 17; void* q = realloc(b->p, ns);
-      const char* w = check_resized(b, q, ns); if (q) free(q); return w;
+      const char* w = check_resized(b, q, ns); release(q); return w;
     }
     case C_REALLOC_SHRINK: {
       size_t ns = b->req / 2 + 1; void* q = realloc(b->p, ns);
-      const char* w = check_resized(b, q, ns); if (q) free(q); return w;
+      const char* w = check_resized(b, q, ns); release(q); return w;
     }
     case C_REALLOCARRAY: {
       size_t ns = 3 * (b->req + 1); void* q = reallocarray(b->p, 3, b->req + 1);
-      const char* w = check_resized(b, q, ns); if (q) free(q); return w;
+      const char* w = check_resized(b, q, ns); release(q); return w;
     }
     case C_USABLE_THEN_FREE: {
       size_t u = malloc_usable_size(b->p);
@@ -147,6 +151,7 @@ static void return_codes(void) {
     code(nm, q == sentinel, (long long)(uintptr_t)q, 0x5151);
     if (rc == 0 && q != sentinel && P_in_heap(q)) free(q);
   }
+  checkpoint("posix_memalign(huge)");
   q = sentinel;
   int rc = posix_memalign(&q, 64, SIZE_MAX / 2);
   code("posix_memalign(huge)->ENOMEM", rc == ENOMEM, rc, ENOMEM);
@@ -154,14 +159,16 @@ static void return_codes(void) {
   q = sentinel;
   rc = posix_memalign(&q, 8, 0);      /* size 0: success, a unique pointer or NULL */
   code("posix_memalign(size=0)->0", rc == 0, rc, 0);
-  if (rc == 0 && q != NULL && q != sentinel) { code("posix_memalign(size=0)-in-heap", P_in_heap(q), 0, 1); free(q); }
+  if (rc == 0 && q != NULL && q != sentinel) { code("posix_memalign(size=0)-in-heap", P_in_heap(q), 0, 1); release(q); }
 
   /* reallocarray: overflow of count*size -> NULL and errno = ENOMEM, the old block stays valid */
+  checkpoint("reallocarray(overflow)");
   errno = 0;
   void* r = reallocarray(NULL, SIZE_MAX / 2, 4);
   code("reallocarray(NULL,overflow)->NULL", r == NULL, r != NULL, 0);
   code("reallocarray(NULL,overflow)-errno", errno == ENOMEM, errno, ENOMEM);
   unsigned char* old = (unsigned char*)malloc(100);
+  if (old == NULL || !P_in_heap(old)) { code("malloc(100)-in-heap", 0, 0, 1); return; }
   memset(old, 0x77, 100);
   errno = 0;
   r = reallocarray(old, (size_t)1 << 33, (size_t)1 << 33);
@@ -169,46 +176,49 @@ static void return_codes(void) {
   code("reallocarray(p,overflow)-errno", errno == ENOMEM, errno, ENOMEM);
   int intact = 1; for (int i = 0; i < 100; i++) if (old[i] != 0x77) intact = 0;
   code("reallocarray(p,overflow)-old-block-intact", intact && P_in_heap(old), intact, 1);
+  if (r != NULL) { release(r); old = (unsigned char*)malloc(100); }   /* went wrong: continue with a fresh block */
   errno = 0;
   r = reallocarray(old, 1, SIZE_MAX / 2);   /* no overflow, but cannot be satisfied */
   code("reallocarray(p,huge)->NULL", r == NULL, r != NULL, 0);
   code("reallocarray(p,huge)-errno", errno == ENOMEM, errno, ENOMEM);
-  free(old);
+  if (r == NULL) free(old); else release(r);
   /* a multiplication that does not overflow is carried out: 7 * 9 bytes */
   r = reallocarray(NULL, 7, 9);
-  code("reallocarray(NULL,7,9)-usable>=63", r != NULL && P_usable(r) >= 63, r ? (long long)P_usable(r) : -1, 63);
-  free(r);
+  code("reallocarray(NULL,7,9)-usable>=63", usable_or_minus1(r) >= 63, usable_or_minus1(r), 63);
+  release(r);
 
   /* ISO C: NULL on failure / overflow */
+  checkpoint("NULL-on-failure");
   r = malloc(SIZE_MAX / 2);           code("malloc(huge)->NULL", r == NULL, r != NULL, 0);
   r = calloc(SIZE_MAX / 2, 4);        code("calloc(overflow)->NULL", r == NULL, r != NULL, 0);
   r = calloc((size_t)1 << 32, (size_t)1 << 32); code("calloc(2^32,2^32)->NULL", r == NULL, r != NULL, 0);
   old = (unsigned char*)malloc(10); memset(old, 0x33, 10);
   r = realloc(old, SIZE_MAX / 2);     code("realloc(p,huge)->NULL", r == NULL, r != NULL, 0);
-  code("realloc(p,huge)-old-block-intact", old[0] == 0x33 && old[9] == 0x33, old[0], 0x33);
-  free(old);
+  if (r == NULL) { code("realloc(p,huge)-old-block-intact", old[0] == 0x33 && old[9] == 0x33, old[0], 0x33); free(old); }
   r = aligned_alloc(3, 30);           code("aligned_alloc(align=3)->NULL", r == NULL, r != NULL, 0);
   r = aligned_alloc(64, SIZE_MAX / 2); code("aligned_alloc(huge)->NULL", r == NULL, r != NULL, 0);
   r = memalign(64, SIZE_MAX / 2);     code("memalign(huge)->NULL", r == NULL, r != NULL, 0);
   r = valloc(SIZE_MAX / 2);           code("valloc(huge)->NULL", r == NULL, r != NULL, 0);
   r = pvalloc(SIZE_MAX - 5);          code("pvalloc(SIZE_MAX-5)->NULL", r == NULL, r != NULL, 0);
   /* null / zero conventions */
+  checkpoint("null-and-zero-conventions");
   free(NULL);                          code("free(NULL)", 1, 0, 0);
   code("malloc_usable_size(NULL)==0", malloc_usable_size(NULL) == 0, (long long)malloc_usable_size(NULL), 0);
   r = malloc(0);
-  if (r != NULL) { code("malloc(0)-in-heap", P_in_heap(r), 0, 1); void* r2 = malloc(0); code("malloc(0)-unique", r2 != r, 0, 1); free(r2); free(r); }
-  r = calloc(0, 0); if (r != NULL) { code("calloc(0,0)-in-heap", P_in_heap(r), 0, 1); free(r); }
+  if (r != NULL) { code("malloc(0)-in-heap", P_in_heap(r), 0, 1); void* r2 = malloc(0); code("malloc(0)-unique", r2 != r, 0, 1); release(r2); release(r); }
+  r = calloc(0, 0); if (r != NULL) { code("calloc(0,0)-in-heap", P_in_heap(r), 0, 1); release(r); }
   /* pvalloc rounds the size up to whole pages */
   r = pvalloc(1);
-  code("pvalloc(1)-usable>=page", r != NULL && P_usable(r) >= page_size(), r ? (long long)P_usable(r) : -1, (long long)page_size());
-  free(r);
+  code("pvalloc(1)-usable>=page", usable_or_minus1(r) >= (long long)page_size(), usable_or_minus1(r), (long long)page_size());
+  release(r);
   r = pvalloc(page_size() + 1);
-  code("pvalloc(page+1)-usable>=2pages", r != NULL && P_usable(r) >= 2 * page_size(), r ? (long long)P_usable(r) : -1, (long long)(2 * page_size()));
-  free(r);
+  code("pvalloc(page+1)-usable>=2pages", usable_or_minus1(r) >= (long long)(2 * page_size()), usable_or_minus1(r), (long long)(2 * page_size()));
+  release(r);
   /* strdup family */
-  char* s = strndup("abcdef", 3); code("strndup(abcdef,3)=abc", s && strcmp(s, "abc") == 0, s ? (long long)strlen(s) : -1, 3); free(s);
-  s = strndup("ab", 10);          code("strndup(ab,10)=ab", s && strcmp(s, "ab") == 0, s ? (long long)strlen(s) : -1, 2); free(s);
-  s = strdup("");                 code("strdup(empty)", s && s[0] == 0 && P_in_heap(s), 0, 0); free(s);
+  checkpoint("strdup-family");
+  char* s = strndup("abcdef", 3); code("strndup(abcdef,3)=abc", s && strcmp(s, "abc") == 0, s ? (long long)strlen(s) : -1, 3); release(s);
+  s = strndup("ab", 10);          code("strndup(ab,10)=ab", s && strcmp(s, "ab") == 0, s ? (long long)strlen(s) : -1, 2); release(s);
+  s = strdup("");                 code("strdup(empty)", s && s[0] == 0 && P_in_heap(s), 0, 0); release(s);
   s = realpath("/nonexistent/x", NULL); code("realpath(missing)->NULL", s == NULL, s != NULL, 0);
 }
 
@@ -223,9 +233,11 @@ int main(int argc, char** argv) {
 #else
   P_cfree = (cfree_t)dlsym(RTLD_DEFAULT, "cfree");
 #endif
-  if (first == 0) {
-    resolve_symbols(argc, argv, 3);
+  if (first == 0) resolve_symbols(argc, argv, 3);
+  if (first == 0 && !getenv("T_OVERRIDE_SKIP_CODES")) {
+    checkpoint("return-codes");
     return_codes();
+    checkpoint("done");
   }
   static const size_t sizes_q[] = { 1, 8, 24, 100, 1000, 4096, 9000, 70000, 140000, 3000000 };
   static const size_t sizes_t[] = { 1, 2, 7, 8, 9, 16, 24, 48, 100, 511, 1000, 1024, 4096, 8192, 9000, 65536, 70000,
